@@ -1,5 +1,6 @@
 """Runs in a fresh interpreter (its own PYTHONHASHSEED): parses a schema, runs one generator, prints {path: contents} as JSON.
-argv: <schema file> <generator> <outdir> [history]   history = 'none' | 'busy' (parse/generate other things first) | 'twice'"""
+argv: <schema file> <generator> <outdir> [history]   history = 'none' | 'busy' (parse/generate other things first) | 'twice' |
+'after:<other schema file>' (parse that schema - same type names, other definitions - and run every generator on it first)"""
 import contextlib
 import io
 import json
@@ -26,6 +27,16 @@ def main():
             except Exception:
                 pass
         get_fcp_from_string("version: \"3\"\nstruct X { a @0: u8, }")
+    if history.startswith("after:"):
+        try:
+            other = get_fcp(history[6:]).unwrap()
+        except Exception:
+            other = None
+        for g in ("dbc", "can_c", "cpp", "nop"):
+            try:
+                generate(g, other, outdir + "_prev")
+            except Exception:
+                pass
     fcp = get_fcp(schema).unwrap()
     try:
         out = generate(name, fcp, outdir)
